@@ -12,20 +12,33 @@ class C11(Cfg):
     harness_pkg = "dv-sync"
     model_exe = "dmodel_sync"
     design_ref = "DESIGN.md §6 C11, App. A.3, A.5, A.6"
-    technique = ("Lean 4 invariant proof over the executable model of local writes, writer batches and pulls (Defects.none) + decide-checked "
-                 "trace for the code as it is + correspondence run of the model against 3-4 real instances with deletions racing with pulls + "
+    technique = ("Lean 4 invariant proofs over the executable model of local writes, writer batches and pulls: for the intended behaviour (Defects.none) and for "
+                 "every model that consults the deletion log with every other switch as in the code (#18 repaired) + decide-checked "
+                 "traces for the code before that repair + correspondence run of the model against 3-4 real instances with deletions racing with pulls + "
                  "an independent oracle on every dump (a peer that stores the deletion record of a row or of a reference never shows that row / reference again) and after "
-                 "quiescence (record everywhere, row and reference nowhere); three of five histories are scenarios: reference deletion racing with an unaware edit of the "
-                 "source row, deletion by a member that received the all-rows right at a later date, deletion reaching a peer that holds an older version")
+                 "quiescence (record everywhere, row — at any version — and reference nowhere); scenario families: reference deletion racing with an unaware edit of the "
+                 "source row, deletion by a member that received the all-rows right at a later date, deletion reaching a peer that holds an older version, and the "
+                 "deletion scenarios (record first then a pull from a peer that has not seen it, newer version first then the record, references of the deleted row, "
+                 "deletion on the day of the last change and on later days)")
     level_text = ("Theorems (Lean 4; any number of peers, any op sequence of creations, updates, room moves, reference changes, deletions, writer batches, "
-                  "recomputations, pulls in any order and rounds): with ingestion consulting the deletion log and a deletion record removing every version of its row "
-                  "(Defects.none) no replica ever stores a row whose id carries a deletion record on that replica (also not behind an open writer batch), deletion records are never forgotten, "
-                  "hence once a peer stores a deletion record of a row it never shows any version of that row again whatever it later pulls from peers that have not seen the deletion; "
-                  "for pulls that are joins, after quiescence the row is shown nowhere and every deletion record is everywhere. "
-                  "For the code as it is the statement is FALSE: the schedule delete@A, B<-A, B<-C, A<-B brings the row back on B and on A (decide-checked model trace, replayed on three real instances: corpus/C11).")
+                  "recomputations, pulls in any order and rounds). (a) Intended behaviour (Defects.none: deletion log consulted, a record removes every version of its row in every room): "
+                  "no replica ever stores a row whose id carries a deletion record on that replica (also not behind an open writer batch), deletion records are never forgotten "
+                  "(C11_invariant, C11_deleted_stays_deleted). (b) EVERY model that consults the deletion log, all other switches free — in particular the code with #18 repaired "
+                  "(findings/C11-ingest-consults-deletion-log.patch), where deletion records are per room: whatever a peer pulls from whatever source it keeps every deletion record "
+                  "and stores no row in a room in which it holds a deletion record of that row (C11_pull_keeps_deleted); invariant over any schedule whose LOCAL writes do not themselves "
+                  "put a row into such a room (C11_invariant_repaired, C11_deleted_stays_deleted_repaired; the guard is automatic for every write without room move outside an open batch, "
+                  "C11_safe_is_automatic); for histories in which rows keep the room they were created in — the histories of the property — the statement at the level of row ids: "
+                  "no replica ever stores ANY version of a row whose id carries a deletion record on it, whatever it pulls from peers that have not seen the deletion "
+                  "(C11_invariant_rooms, C11_deleted_stays_deleted_rooms; fresh ids only). (c) After synchronisation: when a pull leaves the puller unchanged, the puller holds every "
+                  "deletion record the source holds for the room and no version of those rows (C11_quiescent_pull_complete), under hypotheses that each stand for one open finding: whole history "
+                  "compared (room-summary-compares-first-entity-only), members holding every right (#19), no two records of one row on one day or batches not keyed by row id, logs = logs of content (C09); "
+                  "for pulls that are joins, after quiescence the row is shown nowhere and every record is everywhere (C11_converged_absent). "
+                  "Open after the repair: a row that changes room (records are per room): an older version held by a peer in another room is fetched next to the record of a later version (C11_breaks_syncDeletionRoomScoped, model trace). "
+                  "For the code as it is (before the repair) the statement is FALSE: the schedule delete@A, B<-A, B<-C, A<-B brings the row back on B and on A (decide-checked model trace, replayed on three real instances: corpus/C11).")
     level_note = ("Trusted: Lean kernel (+propext, Classical.choice, Quot.sound), the hand-written model lean/DiscretModel/Model/Sync.lean and the harness. "
                   "Modelled and exercised: deletion.rs, validate_deletion, delete_nodes/validate_node_deletions/NodeDeletionEntry::delete_all, filter_existing, add_nodes, synchronise_day. "
-                  "Defects.none is stronger than the statement (a record removes newer versions too, in every room). Reference deletions and dated rights (EntityRight::valid_from) are modelled and exercised; the proved invariant is about rows.")
+                  "Defects.none is stronger than the statement (a record removes newer versions too, in every room). Reference deletions and dated rights (EntityRight::valid_from) are modelled and exercised; the proved invariants are about rows; "
+                  "references of a deleted row stay stored (a synchronised deletion keeps them) but have no stored end: the oracle checks that none is shown.")
     trusted_base = [
         "hand-written model lean/DiscretModel/Model/Sync.lean, tied by the correspondence run (dv-sync vs dmodel_sync)",
         "harness/sync (see C03)",
